@@ -5,7 +5,8 @@ Only property theorems live here (helper lemmas: `Lemmas/Extend.lean`).
 Proved: the right triangle and the right diagonal, first on a cumulative (`Cell` / `CumulativeCell`) input
 (`*_partial`), then for both bases through the incremental path (`to_cumulative`, `to_incremental`,
 `_fix_prev_evaluation_date`: `rightTri_incremental_chain`, `rightTri_lags_exact`, ...); `fill_forward_gaps`;
-the structure of `backfill`. Statements not proved are kept at the end as comments.
+`backfill`; and the bridges `extensionSpec_model_*`: the executable Spec predicates of `Spec/C15.lean` evaluate to
+true on the model's output for all four operators. No statement is left open.
 -/
 import Bermuda.Lemmas.Extend
 import Bermuda.Lemmas.ExtendFill
@@ -17,6 +18,8 @@ import Bermuda.Lemmas.ExtendSpec
 import Bermuda.Lemmas.ExtendDays
 import Bermuda.Lemmas.ExtendSpecDiag
 import Bermuda.Lemmas.ExtendNodup
+import Bermuda.Lemmas.ExtendSpecFillClauses
+import Bermuda.Lemmas.ExtendSpecBackfillClauses
 import Bermuda.Spec.C15
 namespace Bermuda.Properties.C15
 open Bermuda Bermuda.Extend
@@ -829,23 +832,114 @@ example : replacementValues exFirst ["earned_premium"]
 -- the correspondence harness instead.)
 
 
-/-! ### statements not proved (covered by the correspondence + Spec on the implementation's output) -/
+/-! ### the executable Spec on the model's output: `fill_forward_gaps`, `backfill` -/
 
--- (`extensionSpec_model` is split per operator: `extensionSpec_model_rightTri` and `extensionSpec_model_rightDiag`
---  are theorems above.)
--- OPEN extensionSpec_model_fill
---   fillForwardGaps t res? nf = .ok out → (domain: month-aligned canonical triangle without duplicate coordinates,
---   compatible positive resolution) → Spec.C15.allHold (Spec.C15.fillSpec t res? nf out) = true
---   Prop forms proved: `fill_preserves_observed`, `fill_added_inside_gaps`, `fill_complete`, `fill_values`.
---   Missing bridge: `preserved` as the list equation `kept t out = t` (sorted-permutation uniqueness), `insideGaps` /
---   `complete` (first/last lag of the ev-sorted row = min/max lag; `innerGrid` vs `pyRange` of the model), `values`
---   (`sourceOf` = latest date before ↔ greatest lag below), `nodupAdded`, `emptyWhenComplete`, `canonical`.
--- OPEN extensionSpec_model_backfill
---   backfill t statics res? minLag = .ok out → (same domain, resolution > 0, every candidate cell passes the
---   constructor) → Spec.C15.allHold (Spec.C15.backfillSpec t statics res? minLag out) = true
---   Prop forms proved: `backfill_preserves_observed`, `backfill_added_before_first`, `backfill_min_lag`,
---   `backfill_min_lag_exact`, `backfill_before_first_dates`, `backfill_values`.
---   Missing bridge: `preserved` (list equation), `beforeFirst` / `minLag` (`firstLag` = lag of the period row's head;
---   `firstSliceOfPeriod` = the head's slice), `values` (`firstOf` = the head), `nodupAdded`, `canonical`.
+/-- **extensionSpec_model_fill**: ALL executable clauses of `fillSpec` (`preserved` as the list equation
+`kept t out = t`, `nodupAdded`, `canonical`, `emptyInput`; on a compatible resolution also `insideGaps`, `complete`,
+`values`, `emptyWhenComplete`) hold of the model's `fill_forward_gaps`, for both values of `fill_with_none`, on the
+domain `SpecDomain t` (a canonical triangle — sorted, one cell class, constructor date rules — with canonical
+metadata, month-aligned from 1970 on, no coordinate occupied twice) and a positive (given or inferred) resolution.
+The grid hypothesis of the Prop-level theorems is not assumed: it is derived from the Bool `fillCompatible`, and
+for an incompatible resolution the three structural clauses are proved all the same. -/
+theorem extensionSpec_model_fill {t out : List Cell} {res? : Option Int} {nf : Bool}
+    (h : fillForwardGaps t res? nf = .ok out) (hD : SpecDomain t)
+    (hpos : ∀ res, resolvedRes t res? = some res → 0 < res) :
+    Spec.C15.allHold (Spec.C15.fillSpec t res? nf out) = true := by
+  obtain ⟨hcan, hkeys, hsub⟩ := fill_out_structure hD h hpos
+  obtain ⟨hkept, hnd⟩ := spec_preserved hD.canonical.1 hD.canon hD.nodup hcan.1 hkeys hsub
+  have hc := Properties.C01.isCanonical_of_canonical hcan
+  have hpres : (Spec.C15.kept t out == t) = true := by rw [hkept]; simp
+  have hrr : Spec.C15.resolveRes t res? = resolvedRes t res? := by cases res? <;> rfl
+  unfold Spec.C15.fillSpec
+  rw [hrr]
+  cases hr : resolvedRes t res? with
+  | none =>
+    have ht : t = [] := by
+      rcases fillForwardGaps_ok' h with ⟨hrows, _⟩ | ⟨res, _, hres, _⟩
+      · exact slicePeriodRows_nil hrows
+      · rw [hr] at hres; cases hres
+    have hte : t.isEmpty = true := by rw [ht]; rfl
+    simp [Spec.C15.allHold, hpres, hnd, hc, hte]
+  | some res =>
+    have hp := hpos res hr
+    cases hcomp : Spec.C15.fillCompatible t res with
+    | false => simp [Spec.C15.allHold, hcomp, hpres, hnd, hc]
+    | true =>
+      obtain ⟨_, hgrid⟩ := gridRow_of_compatible hD hcomp
+      have h1 := spec_fill_insideGaps hD h hr hp hgrid
+      have h2 := spec_fill_complete hD h hr hp hgrid
+      have h3 := spec_fill_values hD h hr hp hgrid
+      have h4 := spec_fill_emptyWhenComplete hD h hr hp hgrid hkept
+      simp [Spec.C15.allHold, hcomp, hpres, hnd, hc, h1, h2, h3, h4]
+
+/-- **extensionSpec_model_backfill**: ALL executable clauses of `backfillSpec` (`preserved` as the list equation,
+`nodupAdded`, `canonical`, `beforeFirst`, `minLag`, `values`) hold of the model's `backfill` on the domain
+`SpecDomain t`, for a positive (given or inferred) resolution, when the loop runs down to its bound
+(`BackfillOk`: on every row, every cell the loop would create from the row's earliest observation passes the `Cell`
+constructor — the Python loop `break`s at the first `ValueError` — and lies in a month from 1970 on, where
+`add_months` is exact; D8). -/
+theorem extensionSpec_model_backfill {t out : List Cell} {statics : List String} {res? : Option Int}
+    {minLag : Int} (h : backfill t statics res? minLag = .ok out) (hD : SpecDomain t)
+    (hpos : ∀ res, resolvedRes t res? = some res → 0 < res)
+    (hok : ∀ res pres, resolvedRes t res? = some res → periodResolution t = some pres →
+      BackfillOk t res (max minLag (-pres + 1))) :
+    Spec.C15.allHold (Spec.C15.backfillSpec t statics res? minLag out) = true := by
+  have hF := backfill_facts hD h hok
+  obtain ⟨hkept, hnd⟩ := spec_preserved hD.canonical.1 hD.canon hD.nodup hF.canonical.1 hF.keys hF.sub
+  have hc := Properties.C01.isCanonical_of_canonical hF.canonical
+  have hpres : (Spec.C15.kept t out == t) = true := by rw [hkept]; simp
+  have hrr : Spec.C15.resolveRes t res? = resolvedRes t res? := by cases res? <;> rfl
+  unfold Spec.C15.backfillSpec
+  rw [hrr]
+  cases hr : resolvedRes t res? with
+  | none => simp [Spec.C15.allHold, hpres, hnd, hc]
+  | some res =>
+    cases hp : periodResolution t with
+    | none => simp [Spec.C15.allHold, Spec.C15.lowerBound, hp, hpres, hnd, hc]
+    | some pres =>
+      have h1 := spec_backfill_beforeFirst hD hF hr hp
+      have h2 := spec_backfill_minLag hD h hr hp (hpos res hr) (hok res pres hr hp)
+      have h3 := spec_backfill_values hD hF hr hp
+      simp [Spec.C15.allHold, Spec.C15.lowerBound, hp, hpres, hnd, hc, h1, h2, h3]
+
+/-! ### non-vacuity of the bridge hypotheses -/
+
+/-- the domain of the two bridges is inhabited by the two-row triangle `exCells` -/
+theorem exCells_domain : SpecDomain exCells := by
+  refine ⟨⟨by decide +kernel, by decide +kernel, by decide +kernel⟩, by decide +kernel, exCells_aligned,
+    by decide +kernel⟩
+
+def exB1 : Cell :=
+  { kind := .cumulative, ps := ⟨2020, 1, 1⟩, pe := ⟨2020, 1, 31⟩, ev := ⟨2020, 3, 31⟩,
+    values := [("paid_loss", .int 5), ("earned_premium", .int 100)] }
+def exB2 : Cell :=
+  { kind := .cumulative, ps := ⟨2020, 1, 1⟩, pe := ⟨2020, 1, 31⟩, ev := ⟨2020, 4, 30⟩,
+    values := [("paid_loss", .int 7), ("earned_premium", .int 100)] }
+/-- one row observed at the lags 2 and 3 -/
+def exBack : List Cell := [exB1, exB2]
+
+theorem exBack_domain : SpecDomain exBack := by
+  refine ⟨⟨by decide +kernel, by decide +kernel, by decide +kernel⟩, by decide +kernel, ?_, by decide +kernel⟩
+  intro c hc
+  simp only [exBack, List.mem_cons, List.not_mem_nil, or_false] at hc
+  rcases hc with rfl | rfl <;> (unfold MonthAligned; decide)
+
+/-- `BackfillOk` is satisfiable and not vacuous: the row of `exBack` starts at lag 2, so with resolution 1 and bound
+0 the loop creates the lags 1 and 0 — two steps, both valid cells in 2020. (`#eval backfill exBack
+["earned_premium"] (some 1) 0` returns the four cells 2020-01-31 … 2020-04-30 and all six clauses of `backfillSpec`
+evaluate to true; `#eval fillForwardGaps exCells (some 1) false` adds the lags 1 and 2 of the first row and all seven
+clauses of `fillSpec` evaluate to true — the kernel cannot reduce `mergeSort`, so these runs are left to the
+correspondence harness.) -/
+theorem exBack_ok : BackfillOk exBack 1 0 := by
+  intro first hf hearly i hi
+  simp only [exBack, List.mem_cons, List.not_mem_nil, or_false] at hf
+  rcases hf with rfl | rfl
+  · have hs : backfillSteps exB1.devLag 1 0 = 2 := by decide +kernel
+    rw [hs] at hi
+    have : i = 0 ∨ i = 1 := by omega
+    rcases this with rfl | rfl <;> exact ⟨by decide +kernel, by decide +kernel⟩
+  · exfalso
+    apply hearly exB1 (by simp [exBack]) rfl
+    decide +kernel
 
 end Bermuda.Properties.C15
